@@ -14,7 +14,7 @@ The model prints what the property prescribes: the helpers report exactly what f
 reports — removals in order, additions with the hints of the validated conditions — the recovered
 coin spends rebuild the same conditions, and every removed coin can be looked up. -/
 def handle : List String → String
-  | ["C09", flags, len, prog, gen, puz, pks] =>
+  | "C09" :: flags :: len :: prog :: gen :: puz :: pks :: _markers =>
     match Sexp.ofBytes (hexArg prog) with
     | none => "bad-tree"
     | some pt =>
